@@ -23,6 +23,81 @@ CHECKS = {
         note=TB + " Sizes E in 21..63 are not explorable (2^E table)."),
 }
 
+CHECKS.update({
+    "C02": dict(
+        engine="tlc+replay",
+        technique="tropical theorem (flag-based U_tr, V_tr = largest monomials; bounds with N_T, c_min, C_sum) model-checked by TLC on exact integers (MC_TropBound); TLC-generated graphs with their constants replayed into the real sampler in every sector",
+        design_ref="DESIGN.md section 4, C02",
+        text="TLC checks on every connected multigraph / mass pattern / generic reference flow / removal order / ordered parameter assignment below a bound that the sampler's flag rule yields the largest monomials of U and F and that U_tr <= U <= N_T U_tr, c_min F_tr <= F <= C_sum F_tr. Gen_Routing prints N_T, c_min, C_sum and the monomial lists; the harness visits every sector of each graph and checks the four inequalities and the interval for jacobian/normalisation at the unrescaled parameters.",
+        note=TB + " Slack 1e-9 x exact cancellation ratio; points with cancellation x condition > 1e8 skipped and counted; generic kinematics only."),
+    "C06": dict(
+        engine="tlc+replay+trace",
+        technique="Sample.tla edge-choice action checked by TLC (probabilities positive, cumulative sums end at exactly 1); exact cumulative boundaries replayed at, one ulp around and next to 1; recorded executions validated by Trace_Sample with the coordinate value compared to exact rational boundaries inside TLC",
+        design_ref="DESIGN.md section 4, C06",
+        text="TLC establishes totality of the inverse-CDF step in the model for all accepted graphs below a bound. Binding R: for every reachable subgraph the harness steers the real sampler there and tries coordinates 0, subnormal, every exact boundary b(1 -+ 1e-6), its floating neighbours, midpoints, 1-1e-9, 1-2^-52, 1-2^-53: outside the guard band the edge must be the specification's, inside either neighbour, always some edge and no panic. Binding V: executions with the tracking scalar, coordinates on the lattice k/1024, validated by TLC against Cum() as exact rationals.",
+        note=TB + " Rationals exceeding 32 bits are skipped and counted."),
+    "C07": dict(
+        engine="tlc+replay",
+        technique="sector bookkeeping of Sample.tla (xi-factor count, omega exponents, tropical flags, log-linear rescaling identity) checked by TLC; tropical theorem by MC_TropBound; replay in every sector with brute-force maxima over TLC-supplied monomials",
+        design_ref="DESIGN.md section 4, C07",
+        text="TLC checks the sector formula, that the flags equal their declarative characterisation, and that the code's rescaling expression normalises U_tr^(D/2) V_tr^dod identically (exact rational exponent algebra, all D). The harness steers into every edge order, and compares the repository's own debug log with prod xi_j^(1/omega(g_j)) (omega from TLC), with the largest monomial of U and of F/U evaluated from the TLC monomial lists, and with the normalisation identity.",
+        note=TB + " Generic kinematics for the V_tr comparison; points whose rescaling factor is not a normal double (parameter spread beyond ~1e-100) are skipped and counted."),
+    "C08": dict(
+        engine="tlc+replay",
+        technique="matrix-tree identity det(S^T X S) = sum over spanning trees for every cycle basis (tree x unimodular change x re-orientation) model-checked by TLC on integers; spanning-tree monomials and signatures replayed",
+        design_ref="DESIGN.md section 4, C08",
+        text="MC_Symanzik: TLC checks symmetry of L and the matrix-tree identity for all connected graphs below a bound and all cycle bases. Gen_Routing prints three routings per graph and U as a monomial list; the harness checks every L entry against sum_e x_e s_ei s_ej at the observed parameters, u against the spanning-tree polynomial (tolerance 1e-13 x cond L), and equality of u across routings.",
+        note=TB),
+    "C09": dict(
+        engine="tlc+replay",
+        technique="F from 2-forests and masses = det(L) sum x(m^2+p^2) - u^T adj(L) u for every routing (basis, orientation, loop-momentum offsets) model-checked by TLC; F monomials with integer coefficients replayed; routing independence compared on the real sampler",
+        design_ref="DESIGN.md section 4, C09",
+        text="MC_Symanzik (InvF): for every routing of the same reference flow the algebraic F equals the 2-forest polynomial. The harness evaluates the TLC-supplied F at the observed parameters and compares with v x u (tolerance scaled by exact cancellation ratio and condition number), checks u_vectors entry by entry, and demands equal u, v, jacobian for three routings of the same kinematics at the same point.",
+        note=TB),
+    "C10": dict(
+        engine="tlc+replay",
+        technique="completing-the-square identity and L adj(L) = det(L) I model-checked by TLC (MC_Symanzik), Cholesky factor identities by MC_Matrix; four relations between returned loop momenta, Gaussians, lambda, shift and factor checked on every replayed sample",
+        design_ref="DESIGN.md section 4, C10",
+        text="On every sample of the Gen_Routing replay (1..5 loops, D = 1..6): sum_e x_e(|q_e|^2+m_e^2) = v(1+|q|^2/2 lambda); k + shift = sqrt(v/2 lambda) Q^-T q row by row; L shift = u_vectors; Qt^T Qt = L with Qt upper triangular.",
+        note=TB + " Condition-scaled tolerances."),
+    "C11": dict(
+        engine="tlc+replay",
+        technique="rescaling identity of Sample.tla checked by TLC for all D, L, omega; jacobian formula and its value at the UNRESCALED parameters recomputed from TLC-supplied I_tr, U and F monomials",
+        design_ref="DESIGN.md section 4, C11",
+        text="Every replayed sample: u_trop = v_trop = 1 bit-exactly; jacobian = u^(-D/2) v^(-dod) x stored normalisation; and jacobian = I_tr Gamma(dod)/prod Gamma(w) pi^(DL/2) (U_tr/U)^(D/2) (V_tr/V)^dod with every factor computed from the specification at the unrescaled parameters of the debug log (gauge invariance).",
+        note=TB + " Gamma, pi numeric values from the harness (Lanczos)."),
+    "C13": dict(
+        engine="tlc+trace+replay",
+        technique="Box-Muller index map of Sample.tla (cos/sin, pair positions, dropped last sine) checked by TLC; tracking-scalar executions validated by Trace_Sample (leaf pair and trig kind of each Gaussian); numeric value on every replayed sample",
+        design_ref="DESIGN.md section 4, C13",
+        text="TLC checks the map Gaussian n -> (trig, a, b) for all accepted graphs below a bound. Trace validation: for each recorded execution each q component must depend on exactly its pair and be the right trig function. Replay: q equals sqrt(-2 ln a) cos/sin(2 pi b) of the designated coordinates within 16 ulp, a down to the smallest normal double.",
+        note=TB),
+    "C14": dict(
+        engine="tlc+trace",
+        technique="read cursor, roles and information-flow sets of Sample.tla checked by TLC; executions of the real generic code with a tracking scalar validated event by event by Trace_Sample (reads in cursor order, exactly dim coordinates used, dependency sets within the model's)",
+        design_ref="DESIGN.md section 4, C14",
+        text="TLC: at return ctr = dimension, roles fixed by index, the three dependency groups disjoint and covering. Trace validation of 1.6k (quick) executions on random accepted graphs with surplus coordinates appended: every coordinate below the dimension acquires a use, none beyond; Feynman parameters / lambda / Gaussians depend only on their groups.",
+        note=TB + " Dependencies are those observed by the tracking scalar in the executions explored."),
+    "C15": dict(
+        engine="tlc+replay+trace",
+        technique="decompose_for_tropical mirrored loop by loop on exact rationals (Matrix.tla) and model-checked by TLC; exact results replayed bit-exactly on the real routine; accuracy classes against exact rational linear algebra validated by Trace_Matrix",
+        design_ref="DESIGN.md section 4, C15",
+        text="TLC checks for every M = R^T R below a bound that the machine returns an upper-triangular factor with positive diagonal, Qt^T Qt = M, the inverses and the cofactor determinant. The same inputs are an exactness scope for IEEE arithmetic: the real routine must return the exact rationals (<= 4 ulp, 0 expected). General SPD matrices (random, graded, Hilbert, L-like, ill-conditioned, dimension 1..8, cond <= 1e10): accuracy within 256 n^2 eps cond of BigRational results.",
+        note=TB + " BigRational Gaussian elimination is the accuracy reference."),
+    "C16": dict(
+        engine="tlc+replay+trace",
+        technique="outcome-class predicate of Matrix.tla; exact singular inputs from the TLA+ machine replayed (ZeroDet); singular / indefinite / non-finite / scaled / ill-conditioned matrices x 7 tolerances recorded and validated by Trace_Matrix; samples with the stability test on",
+        design_ref="DESIGN.md section 4, C16",
+        text="TLC: zero pivot product => ZeroDet; Ok => determinant non-zero. Trace validation of 3k (quick) calls: never Ok with zero determinant, with the test on never Ok with residual > tol or with NaN (residual recomputed by the documented L_2,1 formula, 1e-6 guard band), pivot-product class observed through the tracking scalar.",
+        note=TB + " Only the `only if` direction raises a violation."),
+    "C19": dict(
+        engine="tlc+trace",
+        technique="narrowing set of Sample.tla (only DrawLambda narrows, only coordinate 2E-2) checked by TLC; every to_f64 of the real generic code recorded by the tracking scalar and validated by Trace_Sample / Trace_Matrix",
+        design_ref="DESIGN.md section 4, C19",
+        text="Every to_f64 call made by sample::<Tr> (debug off) is an event; TLC rejects a narrowing whose argument depends on any user input other than coordinate 2E-2 (values built from table constants only are exempt). decompose_for_tropical::<Tr> must not narrow at all.",
+        note=TB + " Shows the dataflow; does not run a higher-precision type."),
+})
+
 NOT_APPLICABLE = {
     "C01": "integral identity over a continuum (mean over the hypercube = Feynman integral): a finite-state TLA+ model cannot integrate; its finite premises (C04, C06-C14) are decided separately (DESIGN.md section 6)",
 }
